@@ -623,8 +623,22 @@ Section LRU.
   Definition c11_lru_resize (s : c11_lru) (n : nat) : c11_res c11_lru := c11_lru_resize_loop (c11_lru_size s) n s.
   Definition c11_lru_clear (s : c11_lru) : c11_lru := C11_mk_lru [] [] (lru_next s).
 
-  (* LruCopy: continue on a copy of the cache (fixes/C11-8.patch: list copied, index rebuilt for the copied list) *)
-  Inductive c11_lru_op := LruInsert (k : nat) (v : V) | LruTouch (k : nat) | LruPopFront | LruPopBack | LruResize (n : nat) | LruClear | LruCopy.
+  (* rebuildIndex(): _index.clear(); for (it = _data.begin(); it != _data.end(); ++it) _index.insert(make_pair(it->first, it)); *)
+  Definition c11_map_clear (m : list (nat * nat)) : list (nat * nat) := [].
+  Fixpoint c11_lru_rebuild_loop (dl : list (nat * (nat * V))) (m : list (nat * nat)) : list (nat * nat) :=
+    match dl with [] => m | (id, (k, _)) :: r => c11_lru_rebuild_loop r (c11_map_insert k id m) end.
+  (* operator=(other) on a target t that already holds entries: _data = other._data; rebuildIndex();  (the nodes of the copied list are
+     written with the identities of the source's nodes; the source is not used afterwards) *)
+  Definition c11_lru_assign (t s : c11_lru) : c11_lru :=
+    C11_mk_lru (lru_data s) (c11_lru_rebuild_loop (lru_data s) (c11_map_clear (lru_index t))) (Nat.max (lru_next t) (lru_next s)).
+  (* the target of LruAssignOnto: a fresh cache filled by insert(k, v) in the given order *)
+  Fixpoint c11_lru_fill (fx : bool) (s : c11_lru) (pre : list (nat * V)) : c11_res c11_lru :=
+    match pre with [] => C11_ok s | (k, v) :: r => c11_bind (c11_lru_insert fx s k v) (fun s' => c11_lru_fill fx s' r) end.
+
+  (* LruCopy: continue on a copy of the cache (fixes/C11-8.patch: list copied, index rebuilt for the copied list).
+     LruAssignOnto pre: a second cache is filled with the entries pre, the current cache is copy-ASSIGNED to it, the history continues on that target *)
+  Inductive c11_lru_op := LruInsert (k : nat) (v : V) | LruTouch (k : nat) | LruPopFront | LruPopBack | LruResize (n : nat) | LruClear | LruCopy
+                        | LruAssignOnto (pre : list (nat * V)).
   (* result of the op itself: returned reference / exception *)
   Inductive c11_lru_ret := LruVal (v : V) | LruRangeError | LruVoid.
   Definition c11_lru_world : Type := c11_lru * c11_lru_ret.
@@ -638,6 +652,7 @@ Section LRU.
     | LruResize n => c11_bind (c11_lru_resize s n) (fun s' => C11_ok (s', LruVoid))
     | LruClear => C11_ok (c11_lru_clear s, LruVoid)
     | LruCopy => C11_ok (s, LruVoid)
+    | LruAssignOnto pre => c11_bind (c11_lru_fill fx c11_lru_empty pre) (fun t => C11_ok (c11_lru_assign t s, LruVoid))
     end.
   (* ret, size(), front(), back() (when non-empty), find(k) for k < nkeys *)
   Definition c11_lru_obs : Type := c11_lru_ret * nat * option (V * V) * list (option (nat * V)).
@@ -770,6 +785,8 @@ Section BSV.
   (* std::bitset<bs> (trusted abstract semantics): list of bs bits, index 0 = bit 0 *)
   Definition c11_bitset_shl (b : list bool) (k : nat) : list bool := firstn (length b) (repeat false k ++ b).
   Definition c11_bitset_shr (b : list bool) (k : nat) : list bool := skipn k b ++ repeat false (Nat.min k (length b)).
+  (* reference::set(size_type n, int val = 1) { getBit(n) = val; }: the int -> bool conversion of the assignment *)
+  Definition c11_bv_val_to_bool (val : Z) : bool := negb (Z.eqb val 0).
   Fixpoint c11_bitset_zip (f : bool -> bool -> bool) (a b : list bool) : list bool :=
     match a, b with x :: a', y :: b' => f x y :: c11_bitset_zip f a' b' | _, _ => [] end.
   Definition c11_bitset_count (b : list bool) : nat := length (filter (fun x => x) b).
